@@ -47,6 +47,7 @@ type Evidence struct {
 }
 
 var verifDir = "/verif"
+var writeLock = false
 
 func oblProps(o *Obligation) []string { return o.Props }
 
@@ -170,6 +171,7 @@ func runCheck(repo, contracts string, args []string, tier string, timeout time.D
 		}
 	}
 	fault := false
+	var dischargedIDs []string
 	var violationLines []string
 	kindCount := map[string]int{}
 	for _, r := range results {
@@ -204,6 +206,7 @@ func runCheck(repo, contracts string, args []string, tier string, timeout time.D
 				continue
 			}
 			if or.Status == "discharged" || or.Status == "trivial" {
+				dischargedIDs = append(dischargedIDs, or.O.ID)
 				discharged++
 				be := or.Res.Backend
 				if be == "" {
@@ -315,6 +318,15 @@ func runCheck(repo, contracts string, args []string, tier string, timeout time.D
 		for _, r := range results {
 			printFnResult(r, false)
 		}
+	}
+	if writeLock && !fault && violations == 0 {
+		if lock.Discharged == nil {
+			lock.Discharged = map[string][]string{}
+		}
+		sort.Strings(dischargedIDs)
+		lock.Discharged[prop] = dischargedIDs
+		lb, _ := json.MarshalIndent(lock, "", " ")
+		os.WriteFile(filepath.Join(verifDir, "obligations.lock.json"), lb, 0o644)
 	}
 	if fault {
 		return 2
